@@ -74,15 +74,16 @@ pub open spec fn sqrt_post<const B: Word>(m: Mode, b: int, p: nat, S: int, E: in
             && (adj == Rounding::AddOne ==> mm * mm > V) && (adj == Rounding::NoOp ==> mm * mm < V) && adj != Rounding::SubOne,
     }
 }
-/// KNOWN DEFECT REGION (genuine, reproduced natively: base 2, p = 4, HalfEven/HalfAway: sqrt(11 * 2^-1) = 5 * 2^-1 instead
-/// of 9 * 2^-2): an even number of digits with an odd exponent makes the scaled radicand 2p+1 digits long, its integer
-/// root has p+1 digits, is rounded to an integer first and to p digits afterwards (double rounding).  Wrong results only
-/// under HalfEven / HalfAway; the region is excluded for every mode.
-pub open spec fn sqrt_defect_region(b: int, S: int, E: int) -> bool {
-    S != 0 && ndigits(b, S) % 2 == 0 && E % 2 != 0
-}
 
 // ---- lemmas
+/// the lowest bit of a ^ b tells whether a and b differ in parity
+pub proof fn lemma_xor1(a: isize, c: isize)
+    ensures ((a ^ c) & 1) == 0 || ((a ^ c) & 1) == 1,
+        (((a ^ c) & 1) == 1) == (((a as int) % 2 != 0) != ((c as int) % 2 != 0)),
+{
+    assert(((a ^ c) & 1) == 0 || ((a ^ c) & 1) == 1) by (bit_vector);
+    assert((((a ^ c) & 1) == 1) == ((a % 2 != 0) != (c % 2 != 0))) by (bit_vector);
+}
 pub proof fn lemma_and1(i: isize)
     ensures (i & 1) == 0 || (i & 1) == 1, ((i & 1) == 1) == ((i as int) % 2 != 0)
 {
